@@ -1,7 +1,7 @@
 (* C01 — mutual exclusion under the atomic-release hypothesis (restricted relation [rrun] of Model.v). *)
 From Coq Require Import List Bool Arith Lia.
 Import ListNotations.
-From GU Require Import C01.Model C01.Proofs.
+From GU Require Import C01.Facts C01.Model C01.Proofs.
 
 Lemma live_owner_inv f l : live_owner f l = true ->
   exists d y, f = Some d /\ nth_error l (owner d) = Some y /\ alive y = true /\ eng y = Some (gen d).
@@ -24,16 +24,16 @@ Proof.
 Qed.
 
 Lemma win_upd w o r : win (upd w o r) = true ->
-  o <> OMkdir /\ (win w = true \/ ((exists p, o = OStat p) /\ (r = RIsDir true \/ r = RIsFile true))).
+  o <> OMkdir /\ (win w = true \/ ((exists p, o = OStat p) /\ exists a, canon a = true /\ (r = RIsDir a \/ r = RIsFile a))).
 Proof.
   destruct o; simpl; try (split; [discriminate|]); auto; destruct r; simpl; auto; try discriminate;
-    destruct stale; simpl; auto; right; split; eauto.
+    destruct (canon age) eqn:E; simpl; auto; right; split; eauto.
 Qed.
 
-Lemma sem_stale c ng st f o f' r : sem c ng st f o = (f', r) -> (r = RIsDir true \/ r = RIsFile true) -> st = true.
+Lemma sem_stale c ng st f o f' r a : (exists p, o = OStat p) -> sem c ng st f o = (f', r) -> (r = RIsDir a \/ r = RIsFile a) -> st = a.
 Proof.
-  unfold sem. intros H Hr.
-  destruct o as [|p|p|p|p|h one|one| |p]; try destruct p; destruct f as [d|]; simpl in H;
+  unfold sem. intros [p ->] H Hr.
+  destruct p; destruct f as [d|]; simpl in H;
     repeat match type of H with context [if ?b then _ else _] => destruct b eqn:? end;
     inversion H; subst; destruct Hr as [Hr|Hr]; try discriminate; inversion Hr; auto.
 Qed.
@@ -55,13 +55,18 @@ Definition WInv (s : state) : Prop :=
 Definition Inv2 (s : state) : Prop := Inv s /\ bad s = false /\ WInv s.
 
 Section Oracle.
+Variable F : lockfacts.
+Hypothesis Hrel : cond_release F = true.
+Local Notation exec := (Model.exec F).
+Local Notation rrun := (Model.rrun F).
+Local Notation mstep := (Proofs.mstep F).
 Variable judge : state -> bool.
 (* the staleness oracle never judges stale a directory whose creator is engaged with it and alive *)
 Hypothesis judge_sound : forall s, judge s = true -> live_owner (fs s) (cs s) = false.
 
 Lemma Inv2_mstep s c st s' : Inv2 s -> allowedb judge s (IStep c None st) = true -> mstep s c st s' -> Inv2 s'.
 Proof.
-  intros (HI & Hb & HW) Hall Hm. pose proof (Inv_mstep s c st s' HI Hm) as HI'.
+  intros (HI & Hb & HW) Hall Hm. pose proof (Inv_mstep F Hrel s c st s' HI Hm) as HI'.
   destruct HI as (Hex & Hhe & Hps). specialize (Hex Hb).
   apply mstep_x2 in Hm as (x & a & o & k & r & x2 & Hx & Hcur & Hsem & Hcs & Hbad & Hal & Hov & Hgh & Heng & Hho & Hcu).
   destruct (Hps c x a (Do o k) Hx Hcur) as [Hsafe _]. apply Safe_Do_inv in Hsafe as [Hguard _].
@@ -84,9 +89,9 @@ Proof.
       { apply nth_set_nth in Hy' as [[<- ->]|[Hne Hy']]; [|exact (HW c' y' Hy' Hwin)].
         assert (win (gh x2) = true) as Hw2.
         { unfold window_open in Hwin. destruct (cur x2); [|discriminate]. apply andb_true_iff in Hwin. tauto. }
-        rewrite Hgh in Hw2. apply win_upd in Hw2 as [Hno [Hw|[_ Hr]]].
+        rewrite Hgh in Hw2. apply win_upd in Hw2 as [Hno [Hw|[Hp (a0 & Hca & Hr)]]].
         - apply (HW c x Hx). rewrite Hwo by exact Hno. exact Hw.
-        - apply judge_sound. rewrite (sem_stale c (ngen s) st (fs s) o (fs s') r Hsem Hr) in Hjudge. exact Hjudge. }
+        - apply judge_sound. rewrite (sem_stale c (ngen s) st (fs s) o (fs s') r a0 Hp Hsem Hr), Hca in Hjudge. exact Hjudge. }
       destruct (live_owner (fs s') (cs s')) eqn:E; [|reflexivity]. rewrite <- Hbefore. symmetry.
       eapply live_owner_le; [exact Hsd| |exact E].
       intros i z g Hz Haz Hez. rewrite Hcs in Hz. apply nth_set_nth in Hz as [[<- ->]|[Hne Hz]]; [|eauto].
@@ -95,9 +100,9 @@ Qed.
 
 Lemma Inv2_other s it s' ob : Inv2 s -> exec s it = Some (s', ob) -> (forall c st, it <> IStep c None st) -> Inv2 s'.
 Proof.
-  intros (HI & Hb & HW) He Hnot. pose proof (Inv_other s it s' ob HI He Hnot) as HI'.
+  intros (HI & Hb & HW) He Hnot. pose proof (Inv_other F Hrel s it s' ob HI He Hnot) as HI'.
   destruct HI as (Hex & Hhe & Hps). specialize (Hex Hb).
-  destruct (exec_other_inv s it s' ob He Hnot) as (x & x2 & Hx & Hcs & Hbad & Hsd & Hov & Hcase).
+  destruct (exec_other_inv F s it s' ob He Hnot) as (x & x2 & Hx & Hcs & Hbad & Hsd & Hov & Hcase).
   set (c := item_c it) in *.
   split; [exact HI'|]. split; [congruence|].
   assert (alive x2 = true -> alive x = true) as Hal.
@@ -136,7 +141,7 @@ Proof.
   destruct it as [c a|c [k|] st|c|c].
   - eapply Inv2_other; eauto. discriminate.
   - eapply Inv2_other; eauto. discriminate.
-  - eapply Inv2_mstep; eauto. eapply exec_main_inv; eauto.
+  - eapply Inv2_mstep; eauto. eapply (exec_main_inv F); eauto.
   - eapply Inv2_other; eauto. discriminate.
   - eapply Inv2_other; eauto. discriminate.
 Qed.
@@ -158,22 +163,3 @@ Qed.
 
 End Oracle.
 
-(* non-vacuity: a three-contender history with a dead holder, a stale-lock override and a poller that is valid in the
-   restricted relation under the most permissive sound oracle; every contender acquires once *)
-From GU Require Import C01.Witness.
-Lemma judge_max_sound : forall s, judge_max s = true -> live_owner (fs s) (cs s) = false.
-Proof. intros s H. now apply negb_true_iff in H. Qed.
-
-Lemma restricted_example_l : exists s,
-  rrun judge_max (init ex_ovr) (map item_of ex_entries) = Some s /\
-  map (fun x => length (hbs x)) (cs s) = [1; 1; 1] /\          (* one successful acquire each *)
-  map alive (cs s) = [false; true; true] /\ live_holders s = 1.
-Proof. eexists. vm_compute. repeat split. Qed.
-
-(* the three refutation schedules respect the oracle but are NOT runs of the restricted relation: it is exactly the
-   atomic-release condition that they break *)
-Lemma refutations_break_atomicity_l :
-  rrun judge_max (init k1_ovr) (map item_of k1_entries) = None /\
-  rrun judge_max (init k1b_ovr) (map item_of k1b_entries) = None /\
-  rrun judge_max (init k2_ovr) (map item_of k2_entries) = None.
-Proof. vm_compute. repeat split. Qed.
